@@ -1,47 +1,191 @@
 """C10 — Dilation delivers every record exactly once, in order, across reconnects.
 
-Two REAL `Manager`s (A = leader, B = follower) with their real `Outbound` and `Inbound`, joined by fake L2
-connections (objects with `send_record` / `transport.registerProducer` / `transport.unregisterProducer`) whose
-delivery, loss point, replacement and flow-control pauses are scheduled by the case.  Records travel as the real
-Open/Data/Close/Ack namedtuples and enter the peer through the real `Manager.got_record`.
+Two REAL `Manager`s (A = leader, B = follower) with their real `Outbound`, `Inbound`, `SubChannel`s and
+`SubchannelDemultiplex`; the application on the receiving side is a listening `IHalfCloseableProtocol`
+factory that may be registered LATE (after the peer has opened subchannels and written to them).
+Two worlds join the Managers:
+
+ * world "rec": fake L2 connections at the `send_record` / `got_record` boundary (objects with `send_record`,
+   `transport.registerProducer/unregisterProducer`), free schedules of every enabled event;
+ * world "l2": the REAL `DilatedConnectionProtocol` (ToyNoise, real `_Framer`/`_Record`) built by the REAL
+   `Connector.build_protocol`, in-memory byte pipes, and the real `Connector.add_candidate -> consider ->
+   eventual turn -> accept -> select_and_stop_remaining` path.  Records that reach a new connection after the
+   KCM but before that turn are parked in the real `_inbound_record_queue` (bursts coalesced with the KCM in
+   one `dataReceived`), and drained by the real `select()`.
+
+Delivery, loss point, replacement, flow-control pauses and listener registration are scheduled by the case;
+records travel as real Open/Data/Close/Ack and enter the peer through the real `Manager.got_record`.
 """
-import itertools
 from unittest import mock
 
+from twisted.internet.interfaces import IHalfCloseableProtocol, ITransport, IConsumer
 from twisted.internet.task import Clock, Cooperator
-from zope.interface import alsoProvides
+from zope.interface import alsoProvides, implementer
 
-from wormhole._dilation.connection import Open, Data, Close, Ack
+from wormhole._dilation import connector as dconn
+from wormhole._dilation.connection import (Open, Data, Close, Ack, KCM, parse_record, NOISE_MAX_CIPHERTEXT)
 from wormhole._dilation.manager import Manager, DILATION_VERSIONS
 from wormhole._interfaces import ISend
 from wormhole.eventual import EventualQueue
 
+from wormhole._dilation._noise import NoiseInvalidMessage
+
 from ..core import Result
-from ..fakes import hx
+from ..fakes import hx, ToyNoise
+from ..util import automat_state
+
+
+def hxs(b):
+    """as `WV.C10.showBytes`: long payloads as length, byte sum, first and last four bytes"""
+    if len(b) <= 40:
+        return hx(b)
+    return f"#{len(b)}.{sum(b)}.{hx(b[:4])}.{hx(b[-4:])}"
+
+
+class LimitedNoise(ToyNoise):
+    """ToyNoise with the per-message limit of Noise: a message (ciphertext) is at most 65535 bytes"""
+
+    def encrypt(self, m):
+        if len(m) + 16 > 65535 + 16:     # the library refuses plaintexts above 65535 bytes outright
+            raise NoiseInvalidMessage("message too long")
+        return super().encrypt(m)
+
+    def decrypt(self, c):
+        if len(c) > 65535:
+            raise NoiseInvalidMessage("message too long")
+        return super().decrypt(c)
+
+
+class TurnFailed(Exception):
+    """the Connector's / the connection's eventual turn did not do what the schedule expects (an exception inside
+    an eventual turn is logged by EventualQueue, not raised)"""
 
 ID = "C10"
 PROP_MODULES = ["WV.Props.C10"]
 TRUSTED = [
-    "L2 connection = authenticated FIFO of whole records (C12); the harness joins the two real Managers by fake "
-    "connections at the send_record/got_record boundary, so loss points are record boundaries (a partially "
-    "received frame is never a record)",
+    "L2 connection = authenticated FIFO of whole records (C12): loss points are record boundaries (a partially "
+    "received frame is never a record); in world l2 the real DilatedConnectionProtocol/_Record/_Framer carry the "
+    "records over ToyNoise (noiseprotocol is not installed), whole frames per delivery",
     "one L2 connection at a time per side and flow-control calls only from the registered transport (C11, Twisted "
-    "producer contract) — the model's `enabledA`",
-    "subchannel producers (C15) and the SubChannel state machine (C13) are not part of this model: the receiver is "
-    "observed at Inbound.handle_open/handle_data/handle_close and at the SubChannel mocks they call",
+    "producer contract) — the model's `enabledA`; world l2 creates one link at a time and lets a side lose a link "
+    "only after both ends selected it (the races around candidate links are C11's subject)",
+    "the mailbox-level reconnect handshake is replaced by calling rx_RECONNECT / rx_RECONNECTING right after a loss",
+    "subchannel producers (C15) and the local SubChannel state machine of the sending application (C13) are not part "
+    "of this model: the sender calls Manager.send_open/send_data/send_close or the real connector_for().connect() "
+    "with a protocol that writes / closes inside connectionMade (every such write is one `write` event of the "
+    "model, in the order Manager._queue_and_send was called; the oracle compares with the order the APPLICATION "
+    "acted in); the receiver's protocols are IHalfCloseableProtocol listeners (a remote close never makes the "
+    "receiver write), the ones for subprotocol g greet from inside connectionMade",
+    "ToyNoise with the 65535-byte per-message limit of Noise (LimitedNoise)",
 ]
-RULE = ("schedules of open/write/close on <=3 subchannels per direction interleaved with use_connection / "
-        "connection loss / transport pause+resume (pause landing inside the replay loop) / delivery of single "
-        "records and acks, every schedule closed by a final stable generation that drains; corpus of boundary "
-        "schedules, a realistic phase generator (leader connects first, loss with a delivered prefix, both orders of "
-        "noticing), a free generator over all enabled events; thorough adds the exhaustive loss-point enumeration "
-        "(4 records x 2 generations x loss points of data and acks x pause budgets); non-trivial = a replay, a "
-        "dropped duplicate, a lost in-flight record or ack, or a pause inside the drain happened; distinct = "
-        "distinct canonical traces")
+RULE = ("schedules of open/write/close on <=3 subchannels per direction (three subprotocol names), real connect() calls "
+        "with re-entrant protocols on either side, write sizes at the chunking boundaries of the record layer "
+        "(65510/65511/65526/65527, 2x, 3x), interleaved with "
+        "use_connection / connection loss / transport pause+resume (pause landing inside the replay loop) / delivery of "
+        "single records and acks / records parked on a not yet selected connection / late listener registration, every "
+        "schedule closed by registering all listeners and a final stable generation that drains; corpus of boundary "
+        "schedules, a realistic phase generator and a free generator (world rec), a generation-structured generator with "
+        "bursts parked behind the KCM (world l2, real DilatedConnectionProtocol + Connector); thorough adds the "
+        "exhaustive loss-point enumeration (4 records x 2 generations x loss points of data and acks x pause budgets) "
+        "and the exhaustive parked-burst enumeration; non-trivial = a replay, a dropped duplicate, a lost in-flight "
+        "record or ack, a pause inside the drain, a parked burst or a late listener happened; distinct = distinct "
+        "canonical traces")
+
+NAMES = ["a", "é", "g"]
+GREETER = "g"          # listened for by A only, from the start; its protocols write from connectionMade
 
 
 # ---------------------------------------------------------------------------
-# fakes
+# the application on the receiving side
+
+@implementer(IHalfCloseableProtocol)
+class HP:
+    def __init__(self, side):
+        self.side = side
+        self.log = None
+        self.transport = None
+
+    def makeConnection(self, t):
+        self.transport = t
+        scid = t._scid
+        self.log = self.side.app_log.setdefault(scid, [])
+        self.log.append(("open", scid, t.getPeer().subprotocol))
+
+    def dataReceived(self, d):
+        self.log.append(("data", self.transport._scid, bytes(d)))
+
+    def readConnectionLost(self):
+        self.log.append(("close", self.transport._scid, None))
+
+    def writeConnectionLost(self):  # pragma: no cover
+        pass
+
+    def connectionLost(self, why=None):  # pragma: no cover
+        self.log.append(("lost", self.transport._scid, None))
+
+
+class GHP(HP):
+    """a listening protocol that talks first: writes its greeting from inside connectionMade (re-entrant write while
+    Manager.got_record is still on the stack)"""
+
+    def makeConnection(self, t):
+        HP.makeConnection(self, t)
+        g = bytes([t._scid % 256, 0x67])
+        self.side.issued.append(("data", t._scid, g))
+        t.write(g)
+
+
+class CP:
+    """the protocol of a CONNECTING application: writes its greeting(s), and possibly closes, from inside
+    connectionMade, i.e. while SubchannelConnectorEndpoint.connect() is still on the stack"""
+
+    def __init__(self, side, greetings, close):
+        self.side = side
+        self.greetings = greetings
+        self.close = close
+        self.transport = None
+
+    def makeConnection(self, t):
+        self.transport = t
+        self.scid = t._scid
+        self.log = self.side.app_log.setdefault(t._scid, [])
+        for g in self.greetings:
+            t.write(g)
+        if self.close:
+            t.loseConnection()
+
+    def dataReceived(self, d):
+        self.log.append(("data", self.scid, bytes(d)))
+
+    def connectionLost(self, why=None):  # pragma: no cover
+        self.log.append(("lost", self.scid, None))
+
+
+class CFactory:
+    def __init__(self, side, greetings, close):
+        self.args = (side, greetings, close)
+
+    def buildProtocol(self, addr):
+        return CP(*self.args)
+
+
+class Factory:
+    def __init__(self, side, greeter=False):
+        self.side = side
+        self.greeter = greeter
+
+    def buildProtocol(self, addr):
+        return GHP(self.side) if self.greeter else HP(self.side)
+
+    def doStart(self):  # pragma: no cover
+        pass
+
+    def doStop(self):  # pragma: no cover
+        pass
+
+
+# ---------------------------------------------------------------------------
+# world "rec": fake connections
 
 class _Transport:
     def __init__(self):
@@ -85,32 +229,96 @@ class FakeConn:
         pass
 
 
-class FakeSC:
-    """stands in for SubChannel on the receiving side; records what Inbound tells it"""
+# ---------------------------------------------------------------------------
+# world "l2": real DilatedConnectionProtocol over in-memory pipes
 
-    def __init__(self, scid, manager, host_addr, peer_addr):
-        self.scid = scid
-        self.peer_addr = peer_addr
-        self.log = None
+@implementer(ITransport, IConsumer)
+class Pipe:
+    """the transport of one end of a link: every write is one token (prologue, handshake frame, record frame).
+    Tokens written while no producer is registered (prologue, handshake, KCM) are `hidden`: they are L2
+    establishment, not part of the model's `out`.  Flow control as FakeConn: the budget-th write after
+    registerProducer pauses the producer from inside the write."""
 
-    def remote_data(self, data):
-        self.log.append(("data", self.scid, bytes(data)))
+    def __init__(self):
+        self.tokens = []        # [hidden?, bytes]  not yet read by the peer
+        self.producer = None
+        self.budget = 0
+        self.lost = False
 
-    def remote_close(self):
-        self.log.append(("close", self.scid, None))
+    def write(self, data):
+        self.tokens.append([self.producer is None, bytes(data)])
+        if self.producer is not None:
+            if self.budget == 1:
+                self.budget = 0
+                self.producer.pauseProducing()
+            elif self.budget > 0:
+                self.budget -= 1
 
+    def writeSequence(self, seq):  # pragma: no cover
+        for d in seq:
+            self.write(d)
 
-class _Demux:
-    def __init__(self, side):
-        self.side = side
+    def registerProducer(self, p, streaming):
+        assert streaming is True
+        self.producer = p
 
-    def _got_open(self, sc, peer_addr):
-        sc.log = self.side.sc_log.setdefault(sc.scid, [])
-        sc.log.append(("open", sc.scid, peer_addr.subprotocol))
+    def unregisterProducer(self):
+        self.producer = None
 
-    def register(self, name, factory):
+    def loseConnection(self):
+        self.lost = True
+
+    def pauseProducing(self):
         pass
 
+    def resumeProducing(self):
+        pass
+
+    def stopProducing(self):  # pragma: no cover
+        pass
+
+    def getPeer(self):
+        return "peer"
+
+    def getHost(self):
+        return "host"
+
+
+def decode_token(tok):
+    """the record inside a ToyNoise frame (ToyNoise is `m ++ tag`, per packet)"""
+    body = tok[4:]
+    msg = b""
+    for i in range(0, len(body), NOISE_MAX_CIPHERTEXT):
+        msg += body[i:i + NOISE_MAX_CIPHERTEXT][:-16]
+    return parse_record(msg)
+
+
+class Link:
+    def __init__(self, A, B):
+        self.dcp = {}
+        self.pipe = {}
+        for s in (A, B):
+            p = s.mgr._connector.build_protocol("addr", "link")
+            t = Pipe()
+            self.dcp[s.name] = p
+            self.pipe[s.name] = t
+            p.makeConnection(t)
+        self.gone = {"A": False, "B": False}       # connectionLost delivered to this end
+        # prologues, handshakes, the follower's KCM: everything hidden is pumped until quiet; the leader's DCP
+        # ends up `selecting` (its Connector has an accept turn queued), the follower's waits for the leader's KCM
+        for _ in range(6):
+            for x, y in (("A", "B"), ("B", "A")):
+                toks = self.pipe[x].tokens
+                if toks:
+                    data = b"".join(t[1] for t in toks)
+                    del toks[:]
+                    self.dcp[y].dataReceived(data)
+
+    def state(self, x):
+        return automat_state(self.dcp[x])
+
+
+# ---------------------------------------------------------------------------
 
 class SideH:
     def __init__(self, name, leader):
@@ -125,17 +333,29 @@ class SideH:
         m = Manager(self.send, my, None, self.clock, self.eq, self.coop, DILATION_VERSIONS, 30.0, None)
         m.got_dilation_key(b"\x00" * 32)
         m.got_wormhole_versions({"can-dilate": ["ged"]})
-        m.rx_PLEASE({"side": their})          # -> CONNECTING (Connector is a mock for the whole case)
+        m.rx_PLEASE({"side": their})          # -> CONNECTING
         self.mgr = m
         self.ob = m._outbound
         self.ib = m._inbound
-        self.conn = None
-        self.chan = []          # `out` of the current / most recent connection: in flight to the peer
+        self.conn = None        # rec: FakeConn;  l2: the Pipe the Manager's connection writes to
+        self.chan = []          # rec: `out` of the current / most recent connection
+        self.link = None        # l2: the link this side's Manager uses / used last
         self.issued = []        # (kind, scid, payload) in call order
         self.handle_log = []    # calls of Inbound.handle_open/data/close, in order
-        self.sc_log = {}        # scid -> what the SubChannel mock saw
-        self.open_scids = []
-        m._subprotocol_factories = _Demux(self)
+        self.app_log = {}       # scid -> what that subchannel's protocol was told
+        self.factory = Factory(self)
+        self.gfactory = Factory(self, greeter=True)
+        self.hook = None        # called around every Manager._queue_and_send: (phase, record_type, args)
+        qs = m._queue_and_send
+
+        def queue_and_send(record_type, *args):
+            if self.hook:
+                self.hook("before", self, record_type, args)
+            qs(record_type, *args)
+            if self.hook:
+                self.hook("after", self, record_type, args)
+        m._queue_and_send = queue_and_send
+        self.listening = []
         ib = self.ib
         ho, hd, hc = ib.handle_open, ib.handle_data, ib.handle_close
 
@@ -160,7 +380,7 @@ def show_item(kind, seq, scid, payload):
     if kind == "open":
         return f"open:{seq}:{scid}:{hx(payload.encode('utf8'))}"
     if kind == "data":
-        return f"data:{seq}:{scid}:{hx(payload)}"
+        return f"data:{seq}:{scid}:{hxs(payload)}"
     return f"close:{seq}:{scid}"
 
 
@@ -176,40 +396,213 @@ def show_wire(r):
     raise TypeError(r)
 
 
-def show_side(s):
-    ob = s.ob
-    disp = " ".join(show_item(k, i, c, p) for i, (k, c, p) in enumerate(s.handle_log))
-    # NB the seqnum printed for a dispatched record is its position: the real handle_* calls do not carry the
-    # seqnum; the model prints the record's own seqnum.  They agree exactly when dispatch is gap- and
-    # duplicate-free, which is the property; otherwise the line differs and the oracle has already fired.
-    return (f"q=[{' '.join(str(r.seqnum) for r in ob._outbound_queue)}] "
-            f"u=[{' '.join(str(r.seqnum) for r in ob._queued_unsent)}] n={ob._next_outbound_seqnum} "
-            f"c={1 if ob._connection is not None else 0} p={1 if ob._paused else 0} "
-            f"bud={ob._connection.budget if ob._connection is not None else 0} "
-            f"out=[{' '.join(show_wire(r) for r in s.chan)}] h={s.ib._highest_inbound_acked} disp=[{disp}]")
+def show_ev(e):
+    k, _, p = e
+    if k == "open":
+        return "o"
+    if k == "data":
+        return "d" + hxs(p)
+    if k == "close":
+        return "c"
+    return "L"
 
 
-# ---------------------------------------------------------------------------
-# running a schedule
+def show_sub(s, scid, sc):
+    pd = getattr(sc, "_pending_remote_data", [])
+    pc = getattr(sc, "_pending_remote_close", False)
+    return (f"{scid}/{hx(sc._peer_addr.subprotocol.encode('utf8'))}/{automat_state(sc)}/"
+            f"{','.join(show_ev(e) for e in s.app_log.get(scid, []))}/{','.join(hxs(d) for d in pd)}/{1 if pc else 0}")
 
-SUBS = ["a", "proto", "é"]
+
+class World:
+    """what differs between the two worlds: the channel and the connection life cycle"""
+
+    def __init__(self, kind):
+        self.kind = kind
+        self.A = SideH("A", True)
+        self.B = SideH("B", False)
+        self.sides = {"A": self.A, "B": self.B}
+        self.link = None        # l2: the newest link
+
+    def peer(self, s):
+        return self.B if s is self.A else self.A
+
+    # ---- in flight from s to its peer, as records
+    def out(self, s):
+        if self.kind == "rec":
+            return list(s.chan)
+        if s.link is None:
+            return []
+        return [decode_token(t[1]) for t in s.link.pipe[s.name].tokens if not t[0]]
+
+    def parked(self, s):
+        if self.kind == "rec" or self.link is None:
+            return []
+        p = self.link.dcp[s.name]
+        if self.link.gone[s.name] or p._manager is not None:
+            return []
+        return list(p._inbound_record_queue)
+
+    def budget(self, s):
+        if s.ob._connection is None:
+            return 0
+        return s.conn.budget
+
+    def show_side(self, s):
+        ob = s.ob
+        disp = " ".join(show_item(k, i, c, p) for i, (k, c, p) in enumerate(s.handle_log))
+        # NB the seqnum printed for a dispatched record is its position: the real handle_* calls do not carry the
+        # seqnum; the model prints the record's own seqnum.  They agree exactly when dispatch is gap- and
+        # duplicate-free, which is the property; otherwise the line differs and the oracle has already fired.
+        # only the subchannels the PEER opened (its scid parity): the ones this side connected itself are the
+        # sending application's, not part of the receiving side's L4 state
+        mine = 1 if s.leader else 0
+        subs = " ".join(show_sub(s, scid, sc) for scid, sc in s.ib._open_subchannels.items() if scid % 2 != mine)
+        return (f"q=[{' '.join(str(r.seqnum) for r in ob._outbound_queue)}] "
+                f"u=[{' '.join(str(r.seqnum) for r in ob._queued_unsent)}] n={ob._next_outbound_seqnum} "
+                f"c={1 if ob._connection is not None else 0} p={1 if ob._paused else 0} "
+                f"bud={self.budget(s)} "
+                f"out=[{' '.join(show_wire(r) for r in self.out(s))}] "
+                f"park=[{' '.join(show_wire(r) for r in self.parked(s))}] "
+                f"h={s.ib._highest_inbound_acked} disp=[{disp}] "
+                f"f=[{' '.join(hx(n.encode('utf8')) for n in s.listening)}] subs=[{subs}]")
+
+    def show(self):
+        return "A{" + self.show_side(self.A) + "} B{" + self.show_side(self.B) + "}"
+
+    # ---- l2 helpers
+    def link_alive_for(self, s):
+        """the newest link exists and this end has not been lost"""
+        return self.link is not None and not self.link.gone[s.name]
+
+    def can_use(self, s):
+        if s.connected():
+            return False
+        if self.kind == "rec":
+            return True
+        other = self.peer(s)
+        if s.leader:
+            if self.link is not None and not self.link.gone["A"] and self.link.dcp["A"]._manager is None:
+                return True                      # candidate waiting for its accept turn
+            return not other.connected()         # a new link needs both Managers in CONNECTING
+        # follower: the leader must have selected the newest link (its KCM is written) and we have not yet
+        lk = self.link
+        return (lk is not None and not lk.gone["B"] and lk.dcp["B"]._manager is None
+                and lk.dcp["A"]._manager is not None and not lk.gone["A"])
+
+    def use(self, s, budget):
+        if self.kind == "rec":
+            c = FakeConn(budget)
+            s.conn = c
+            s.chan = c.out
+            s.mgr.connector_connection_made(c)
+            return
+        if s.leader and not (self.link is not None and not self.link.gone["A"] and self.link.dcp["A"]._manager is None):
+            self.link = Link(self.A, self.B)
+        lk = self.link
+        if not s.leader:
+            self.feed_hidden(s)                  # the leader's KCM, if it has not been read yet
+        lk.pipe[s.name].budget = budget
+        s.conn = lk.pipe[s.name]
+        s.link = lk
+        s.eq.flush_sync()                        # the Connector's deferred turn: accept -> select -> connection_made
+        if not s.connected():
+            raise TurnFailed("the accept turn did not select the link")
+
+    def feed_hidden(self, s):
+        """hidden tokens (KCM) at the head of the pipe towards s are read; returns the bytes if they were NOT
+        fed because the caller wants to coalesce them with a record"""
+        lk = s.link if (s.link is not None and not s.link.gone[s.name] and s.connected()) else self.link
+        other = self.peer(s)
+        toks = lk.pipe[other.name].tokens
+        data = b""
+        while toks and toks[0][0]:
+            data += toks.pop(0)[1]
+        if data:
+            lk.dcp[s.name].dataReceived(data)
+
+    def recv_link(self, s):
+        """the link whose bytes from the peer can reach s now, or None"""
+        other = self.peer(s)
+        lk = other.link                          # the link the peer's records are written to
+        if self.kind == "rec":
+            return None
+        if lk is None or lk.gone[s.name]:
+            return None
+        return lk
+
+    def can_lose(self, s):
+        if not s.connected():
+            return False
+        if self.kind == "rec":
+            return True
+        lk = s.link
+        if lk.pipe["A"].lost or lk.pipe["B"].lost:
+            return True                          # an end asked for loseConnection(): the link is going down
+        return lk.dcp["A"]._manager is not None and lk.dcp["B"]._manager is not None
+
+    def reap(self):
+        """l2: an end whose protocol called transport.loseConnection() (the receiver refused what it read).
+        Returns the sides whose Manager must now be told (connectionLost on a selected connection)."""
+        todo = []
+        lk = self.link
+        if self.kind != "l2" or lk is None:
+            return todo
+        if not (lk.pipe["A"].lost or lk.pipe["B"].lost):
+            return todo
+        for x in "AB":
+            s = self.sides[x]
+            if lk.gone[x]:
+                continue
+            if s.connected() and s.link is lk:
+                todo.append(x)
+            else:
+                lk.gone[x] = True                # a candidate that never got selected just goes away
+                lk.dcp[x].connectionLost(None)
+                s.eq.flush_sync()
+        return todo
+
+    def lose(self, s):
+        if self.kind == "rec":
+            s.mgr.connector_connection_lost()
+        else:
+            lk = s.link
+            lk.gone[s.name] = True
+            lk.dcp[s.name].connectionLost(None)  # fires when_disconnected -> eventual turn
+            s.eq.flush_sync()                    # -> manager.connector_connection_lost()
+            if s.connected():
+                raise TurnFailed("connectionLost did not reach the manager")
+        s.conn = None
+        # back to CONNECTING (with a fresh real Connector in world l2)
+        if s.leader:
+            s.mgr.rx_RECONNECTING()
+        else:
+            s.mgr.rx_RECONNECT()
+
+
+SUBS = NAMES
 
 
 def run_case(case):
-    with mock.patch("wormhole._dilation.manager.Connector"), \
-            mock.patch("wormhole._dilation.inbound.SubChannel", FakeSC):
-        return _run(case)
+    kind = case.get("world", "rec")
+    # every case starts from a clean process: if SubChannel keeps mutable state on the CLASS (it must not), a
+    # previous case would leak into this one and a replay would not reproduce in a fresh process
+    from wormhole._dilation.subchannel import SubChannel
+    for v in vars(SubChannel).values():
+        if isinstance(v, list):
+            del v[:]
+    with mock.patch.object(dconn, "build_noise", LimitedNoise), \
+            mock.patch.object(dconn.Connector, "start", lambda self: None):
+        return _run(case, kind)
 
 
-def _run(case):
-    A = SideH("A", True)
-    B = SideH("B", False)
-    sides = {"A": A, "B": B}
+def _run(case, kind):
+    W = World(kind)
+    A, B = W.A, W.B
+    sides = W.sides
     lines, exp, viol, tags = [], [], [], set()
     dead = [None]
-
-    def world():
-        return "A{" + show_side(A) + "} B{" + show_side(B) + "}"
+    tags.add("world:" + kind)
 
     def check_prefix(where):
         for s, peer in ((A, B), (B, A)):
@@ -218,35 +611,53 @@ def _run(case):
                 viol.append(("dispatch-not-prefix",
                              f"{where}: {peer.name} dispatched {fmt(got)} which is not a prefix of what {s.name} issued {fmt(s.issued)}"))
                 return False
-            for scid, log in peer.sc_log.items():
+            for scid, log in peer.app_log.items():
                 want = [i for i in s.issued if i[1] == scid]
                 if log != want[:len(log)]:
                     viol.append(("subchannel-callbacks-not-prefix",
-                                 f"{where}: subchannel {scid} on {peer.name} saw {fmt(log)}, issued {fmt(want)}"))
+                                 f"{where}: the protocol of subchannel {scid} on {peer.name} saw {fmt(log)}, issued for it {fmt(want)}"))
                     return False
         return True
+
+    emitted = []          # (line, expected) produced by Manager._queue_and_send calls during the current op
+    first_snapshot = [None]
+
+    def hook(phase, side, record_type, args):
+        if phase == "before":
+            if first_snapshot[0] is None:
+                first_snapshot[0] = W.show()
+            return
+        x = side.name
+        if record_type is Open:
+            line = f"write {x} open {args[0]} {hx(args[1].encode('utf8'))}"
+        elif record_type is Data:
+            line = f"write {x} data {args[0]} {hx(bytes(args[1]))}"
+        else:
+            line = f"write {x} close {args[0]}"
+        emitted.append((line, "ok " + W.show()))
+    A.hook = B.hook = hook
 
     def do(op):
         """returns False when the op is not enabled now (skipped, nothing emitted)"""
         k, x = op[0], op[1]
         s = sides[x]
-        peer = B if s is A else A
+        peer = W.peer(s)
         res = "ok"
+        line = None           # the op's own model line (None: the op is nothing but Manager writes)
         if k == "write":
             what = op[2]
             if what == "open":
                 scid, sub = op[3], op[4]
-                line = f"write {x} open {scid} {hx(sub.encode('utf8'))}"
                 f = lambda: s.mgr.send_open(scid, sub)
                 item = ("open", scid, sub)
             elif what == "data":
-                scid, d = op[3], bytes.fromhex(op[4])
-                line = f"write {x} data {scid} {hx(d)}"
+                scid, d = op[3], bytes.fromhex(op[4]) if not isinstance(op[4], int) else bytes((i * 31 + 7) % 256 for i in range(op[4]))
                 f = lambda: s.mgr.send_data(scid, d)
                 item = ("data", scid, d)
+                if len(d) > 65000:
+                    tags.add("big-write")
             else:
                 scid = op[3]
-                line = f"write {x} close {scid}"
                 f = lambda: s.mgr.send_close(scid)
                 item = ("close", scid, None)
             s.issued.append(item)
@@ -254,44 +665,74 @@ def _run(case):
                 tags.add("write-behind-replay")
             if not s.connected():
                 tags.add("write-while-down")
+        elif k == "connect":
+            # the real SubchannelConnectorEndpoint.connect() with a protocol that writes / closes from inside
+            # connectionMade.  What the peer must see is what the APPLICATION did, in its order: open, greetings, close
+            name, greetings, close = op[2], [bytes.fromhex(g) for g in op[3]], op[4]
+            if not s.mgr._made_first_connection or s.eq._calls:
+                return False
+            scid = s.mgr._next_subchannel_id
+            s.issued.append(("open", scid, name))
+            for g in greetings:
+                s.issued.append(("data", scid, g))
+            if close:
+                s.issued.append(("close", scid, None))
+            tags.add("connect:reentrant" if (greetings or close) else "connect:plain")
+            result = []
+
+            def f():
+                d = s.mgr._api.connector_for(name).connect(CFactory(s, greetings, close))
+                d.addBoth(result.append)
+                s.eq.flush_sync()                # when_fired() answers through the eventual queue
+                if not result or not isinstance(result[0], CP):
+                    raise TurnFailed(f"connect() did not finish: {result}")
+        elif k == "listen":
+            name = op[2]
+            if name in s.listening:
+                return False
+            if name == GREETER and x != "A":
+                return False
+            line = f"listen {x} {hx(name.encode('utf8'))}"
+            pend = [sc for sc in s.ib._open_subchannels.values()
+                    if sc._peer_addr.subprotocol == name and automat_state(sc) == "unconnected"]
+            if pend:
+                tags.add("late-listener")
+            if len([sc for sc in pend if getattr(sc, "_pending_remote_data", None)]) >= 2:
+                tags.add("late-listener:>=2-with-queued-data")
+
+            def f():
+                s.listening.append(name)
+                s.mgr._register_subprotocol_factory(name, s.gfactory if name == GREETER else s.factory)
         elif k == "use":
-            if s.connected():
+            if not W.can_use(s):
                 return False
             budget = op[2]
             line = f"use {x} {budget}"
-            if s.chan:
-                tags.add("inflight-lost:" + ("data" if any(not isinstance(r, Ack) for r in s.chan) else "ack"))
+            if W.out(s):
+                tags.add("inflight-lost:" + ("data" if any(not isinstance(r, Ack) for r in W.out(s)) else "ack"))
             if s.ob._outbound_queue:
                 tags.add("replay")
-
-            def f():
-                c = FakeConn(budget)
-                s.conn = c
-                s.chan = c.out
-                s.mgr.connector_connection_made(c)
+            npark = len([r for r in W.parked(s) if not isinstance(r, Ack)])
+            if npark:
+                tags.add("parked-burst:" + ("1" if npark == 1 else ">=2"))
+            f = lambda: W.use(s, budget)
         elif k == "lose":
             if not s.connected():
-                if len(op) > 2 and op[2] == "force":      # adversarial: stop without a connection
+                if len(op) > 2 and op[2] == "force" and kind == "rec":      # adversarial: stop without a connection
                     line = f"lose {x}"
                     f = lambda: s.ob.stop_using_connection()
                 else:
                     return False
             else:
+                if not W.can_lose(s):
+                    return False
                 line = f"lose {x}"
-
-                def f():
-                    s.mgr.connector_connection_lost()
-                    s.conn = None
-                    # back to CONNECTING: the mailbox-level reconnect handshake (C11) is not the subject here
-                    if s.leader:
-                        s.mgr.rx_RECONNECTING()
-                    else:
-                        s.mgr.rx_RECONNECT()
+                f = lambda: W.lose(s)
         elif k == "pause":
             if not s.connected():
                 return False
             line = f"pause {x}"
-            f = lambda: s.conn.transport.producer.pauseProducing()
+            f = lambda: s.conn.producer.pauseProducing() if kind == "l2" else s.conn.transport.producer.pauseProducing()
         elif k == "resume":
             if not s.connected():
                 return False
@@ -300,12 +741,42 @@ def _run(case):
 
             def f():
                 s.conn.budget = budget
-                s.conn.transport.producer.resumeProducing()
+                (s.conn.producer if kind == "l2" else s.conn.transport.producer).resumeProducing()
         elif k == "deliver":
-            if not peer.chan:
-                return False
-            line = f"deliver {x}"
-            r = peer.chan[0]
+            if kind == "rec":
+                if not peer.chan:
+                    return False
+                line = f"deliver {x}"
+                r = peer.chan[0]
+                f = lambda: s.mgr.got_record(peer.chan.pop(0))
+            else:
+                lk = W.recv_link(s)
+                if lk is None or lk.pipe[x].lost:
+                    return False
+                toks = lk.pipe[peer.name].tokens
+                recs = [t for t in toks if not t[0]]
+                if not recs:
+                    return False
+                # hidden tokens ahead of the record (the leader's KCM) arrive in the same chunk
+                data = b""
+                while toks[0][0]:
+                    data += toks[0][1]
+                    toks.pop(0)
+                st_before = lk.state(x)
+                if st_before == "unselected" and not data:
+                    return False                 # KCM not written yet: nothing can be read
+                r = decode_token(toks[0][1])
+                tok = toks[0][1]
+                parked = (st_before in ("unselected", "selecting"))
+                line = ("park " if parked else "deliver ") + x
+                if parked:
+                    tags.add("op:park")
+                    if data:
+                        tags.add("coalesced-with-KCM")
+
+                def f():
+                    toks.pop(0)
+                    lk.dcp[x].dataReceived(data + tok)
             res = show_wire(r)
             if isinstance(r, Ack):
                 if s.ob._queued_unsent and s.ob._queued_unsent[0].seqnum <= r.resp_seqnum:
@@ -315,29 +786,49 @@ def _run(case):
                     tags.add("duplicate-dropped")
                 if not s.connected():
                     tags.add("ack-not-sent")
-
-            def f():
-                s.mgr.got_record(peer.chan.pop(0))
         else:
             raise ValueError(op)
         tags.add("op:" + k)
-        lines.append(line)
+        del emitted[:]
+        first_snapshot[0] = None
+        failed = None
         try:
             f()
         except Exception as e:  # a Python exception ends the case (the model stops there too)
-            name = type(e).__name__
-            exp.append(name)
-            dead[0] = name
-            tags.add("exception:" + name)
+            failed = type(e).__name__
+        # the op's own line first (its state is the one seen when the first re-entrant write began), then one
+        # `write` line per Manager._queue_and_send the op caused, in call order
+        if line is not None:
+            lines.append(line)
+            if failed and not emitted:
+                exp.append(failed)
+            else:
+                if emitted:
+                    tags.add("reentrant-write-in:" + k)
+                exp.append(res + " " + (first_snapshot[0] if emitted else W.show()))
+        for l, e in emitted:
+            lines.append(l)
+            exp.append(e)
+        if failed:
+            if line is None or emitted:
+                lines.append(line or "write-failed")
+                exp.append(failed)
+            dead[0] = failed
+            tags.add("exception:" + failed)
             return True
         if k == "use" and s.ob._queued_unsent:
             tags.add("paused-inside-replay")
-        exp.append(res + " " + world())
-        check_prefix(line)
+        check_prefix(lines[-1])
+        for y in W.reap():
+            tags.add("receiver-dropped-connection")
+            dropped[0] += 1
+            do(["lose", y])
         return True
 
+    dropped = [0]
+    do(["listen", "A", GREETER])          # the greeter's listener exists from the start (see GHP)
     for op in case["ops"]:
-        if dead[0] or viol:
+        if dead[0] or viol or dropped[0]:
             break
         do(op)
 
@@ -345,36 +836,55 @@ def _run(case):
     if dead[0] and not adversarial:
         viol.append(("exception", f"{dead[0]} raised by a legal schedule at `{lines[-1]}`"))
     if not dead[0] and not viol:
-        # the final stable generation: both sides connected, unpaused, never paused again; drain everything
+        # every listener is registered, then the final stable generation: both sides connected on one link,
+        # unpaused, never paused again; drain everything.  If a receiver drops the connection while reading
+        # (world l2), that is just one more loss: up to three further generations are tried.
         for x in ("A", "B"):
-            s = sides[x]
-            if not s.connected():
-                do(["use", x, 0])
-            else:
-                do(["resume", x, 0])
-        guard = 0
-        while (A.chan or B.chan) and not dead[0] and guard < 10000:
-            guard += 1
-            if A.chan:
-                do(["deliver", "B"])
-            if B.chan and not dead[0]:
-                do(["deliver", "A"])
+            for name in NAMES:
+                do(["listen", x, name])
+        for attempt in range(4):
+            before = dropped[0]
+            if kind == "l2":
+                # a link that only one side still uses is given up by that side too
+                for x in ("A", "B"):
+                    s = sides[x]
+                    if s.connected() and s.link.gone[W.peer(s).name]:
+                        do(["lose", x])
+            for x in ("A", "B"):
+                s = sides[x]
+                if not s.connected():
+                    do(["use", x, 0])
+                else:
+                    do(["resume", x, 0])
+            guard = 0
+            while not dead[0] and not viol and guard < 10000 and dropped[0] == before:
+                guard += 1
+                moved = do(["deliver", "B"])
+                if not dead[0] and not viol and dropped[0] == before:
+                    moved = do(["deliver", "A"]) or moved
+                if not moved:
+                    break
+            if dead[0] or viol or dropped[0] == before:
+                break
         if dead[0]:
             viol.append(("exception", f"{dead[0]} raised while draining the final generation at `{lines[-1]}`"))
         elif not viol:
+            why = (f" ({dropped[0]} connections in a row were dropped by the receiver while it read what the sender "
+                   f"(re)sent first)") if dropped[0] else ""
             for s, peer in ((A, B), (B, A)):
                 if peer.handle_log != s.issued:
                     viol.append(("not-all-delivered",
-                                 f"after a stable generation drained, {peer.name} dispatched {fmt(peer.handle_log)} but {s.name} issued {fmt(s.issued)}"))
+                                 f"after a stable generation drained{why}, {peer.name} dispatched {fmt(peer.handle_log)} but {s.name} issued {fmt(s.issued)}"))
                     break
-                for scid in {i[1] for i in s.issued}:
+                for scid in sorted({i[1] for i in s.issued}):
                     want = [i for i in s.issued if i[1] == scid]
-                    if peer.sc_log.get(scid, []) != want:
+                    if peer.app_log.get(scid, []) != want:
                         viol.append(("subchannel-callbacks-incomplete",
-                                     f"subchannel {scid} on {peer.name} saw {fmt(peer.sc_log.get(scid, []))}, issued {fmt(want)}"))
+                                     f"with every listener registered and everything delivered{why}, the protocol of subchannel {scid} on {peer.name} saw {fmt(peer.app_log.get(scid, []))}, issued for it {fmt(want)}"))
                         break
     nontrivial = bool(tags & {"replay", "duplicate-dropped", "inflight-lost:data", "inflight-lost:ack",
-                              "paused-inside-replay", "write-behind-replay", "ack-not-sent"})
+                              "paused-inside-replay", "write-behind-replay", "ack-not-sent", "op:park",
+                              "late-listener", "connect:reentrant", "big-write"})
     return Result(lines, exp, viol, sorted(tags), nontrivial)
 
 
@@ -384,138 +894,215 @@ def fmt(items):
         if k == "open":
             out.append(f"open({c},{p})")
         elif k == "data":
-            out.append(f"data({c},{p.hex()})")
-        else:
+            out.append(f"data({c},{p.hex() if len(p) <= 40 else hxs(p)})")
+        elif k == "close":
             out.append(f"close({c})")
+        else:
+            out.append(f"{k}({c})")
     return "[" + " ".join(out) + "]"
 
 
 # ---------------------------------------------------------------------------
 # generators
 
-class AppGen:
-    """well-formed application behaviour on one side: open a fresh scid, write to open ones, close once"""
+# encoded record = 9 bytes of header + payload; Noise payload limit 65519, Noise message limit 65535
+BOUNDARY = [65509, 65510, 65511, 65518, 65526, 65527, 65535, 2 * 65519 - 10, 2 * 65519 - 9, 2 * 65519 - 8,
+            3 * 65519 - 9, 3 * 65519 - 8]
 
-    def __init__(self, x, rng):
+
+class AppGen:
+    """well-formed application behaviour on one side: open a fresh scid, write to open ones, close once; or the
+    real connect() with a protocol that greets (and maybe closes) from inside connectionMade"""
+
+    def __init__(self, x, rng, big=0.0):
         self.x = x
         self.rng = rng
-        self.next_scid = 1 if x == "A" else 2
+        self.next_scid = 101 if x == "A" else 102     # directly opened ids; connect() allocates 1,3,… / 2,4,…
         self.open = []
         self.count = 0
+        self.big = big
 
     def write(self):
         rng = self.rng
         self.count += 1
-        if not self.open or (len(self.open) < 3 and rng.random() < 0.25):
+        if rng.random() < 0.12:
+            names = ["a", "é"] if self.x == "A" else ["a", "é", "g", "g"]
+            greetings = [bytes(rng.randrange(256) for _ in range(rng.choice([0, 1, 3]))).hex()
+                         for _ in range(rng.choice([0, 1, 1, 2]))]
+            return ["connect", self.x, rng.choice(names), greetings, rng.random() < 0.4]
+        if not self.open or (len(self.open) < 3 and rng.random() < 0.3):
             scid = self.next_scid
             self.next_scid += 2
             self.open.append(scid)
-            return ["write", self.x, "open", scid, rng.choice(SUBS)]
+            return ["write", self.x, "open", scid, rng.choice(["a", "a", "é"])]
         scid = rng.choice(self.open)
-        if rng.random() < 0.15:
+        if rng.random() < 0.12:
             self.open.remove(scid)
             return ["write", self.x, "close", scid]
+        if rng.random() < self.big:
+            return ["write", self.x, "data", scid, rng.choice(BOUNDARY)]
         n = rng.choice([0, 1, 1, 2, 3, 8])
         return ["write", self.x, "data", scid, bytes(rng.randrange(256) for _ in range(n)).hex()]
 
 
+def listen_ops(rng, early):
+    """listener registrations for both sides: all up front (early) or left for random later positions"""
+    ops = []
+    for x in "AB":
+        for n in NAMES:
+            if rng.random() < early:
+                ops.append(["listen", x, n])
+    return ops
+
+
+def sprinkle(rng, ops, extra):
+    for e in extra:
+        ops.insert(rng.randrange(len(ops) + 1), e)
+    return ops
+
+
 def gen_free(rng, n):
     apps = {"A": AppGen("A", rng), "B": AppGen("B", rng)}
-    ops = []
+    ops = listen_ops(rng, rng.choice([0.0, 0.5, 1.0]))
     for _ in range(n):
         x = rng.choice("AB") if rng.random() < 0.3 else "A"
         r = rng.random()
         if r < 0.30:
             ops.append(apps[x].write())
-        elif r < 0.62:
+        elif r < 0.60:
             ops.append(["deliver", rng.choice("AB")])
-        elif r < 0.74:
+        elif r < 0.72:
             ops.append(["use", x, rng.choice([0, 0, 1, 2, 3])])
-        elif r < 0.82:
+        elif r < 0.80:
             ops.append(["lose", x])
-        elif r < 0.88:
+        elif r < 0.85:
             ops.append(["pause", x])
-        else:
+        elif r < 0.95:
             ops.append(["resume", x, rng.choice([0, 0, 1, 2])])
+        else:
+            ops.append(["listen", rng.choice("AB"), rng.choice(NAMES)])
     return ops
 
 
-def gen_realistic(rng, gens):
+def gen_realistic(rng, gens, big=0.0):
     """generations as the Manager/Connector produce them: leader uses the connection first, traffic, then the
-    connection dies with a delivered prefix, the two sides notice in either order, writes continue meanwhile"""
-    apps = {"A": AppGen("A", rng), "B": AppGen("B", rng)}
-    ops = []
+    connection dies with a delivered prefix, the two sides notice in either order, writes continue meanwhile.
+    Valid in both worlds: in world l2 a `deliver B` between `use A` and `use B` parks the record."""
+    apps = {"A": AppGen("A", rng, big), "B": AppGen("B", rng, big)}
+    ops = listen_ops(rng, rng.choice([0.0, 0.0, 0.5, 1.0]))
+    late = [["listen", x, n] for x in "AB" for n in NAMES]
 
-    def some_writes(k):
+    def some_writes(k, who="AAB"):
         for _ in range(k):
-            ops.append(apps[rng.choice("AAB")].write())
+            ops.append(apps[rng.choice(who)].write())
 
-    some_writes(rng.randrange(0, 4))
+    some_writes(rng.randrange(0, 5))
     for _g in range(gens):
-        ops.append(["use", "A", rng.choice([0, 0, 1, 2])])
-        for _ in range(rng.randrange(0, 3)):
-            ops.append(["deliver", "B"])        # follower's connection delivers its queue before connection_made
+        ops.append(["use", "A", rng.choice([0, 0, 0, 1, 2])])
+        for _ in range(rng.choice([0, 0, 1, 2, 3, 5])):
+            ops.append(["deliver", "B"])        # reaches the follower's connection before its select() turn
         ops.append(["use", "B", rng.choice([0, 0, 1, 2])])
         for _ in range(rng.randrange(2, 14)):
             r = rng.random()
             if r < 0.4:
                 some_writes(1)
-            elif r < 0.85:
+            elif r < 0.82:
                 ops.append(["deliver", rng.choice("AB")])
-            elif r < 0.92:
+            elif r < 0.87:
                 ops.append(["pause", rng.choice("AB")])
-            else:
+            elif r < 0.93:
                 ops.append(["resume", rng.choice("AB"), rng.choice([0, 1, 2])])
+            else:
+                ops.append(rng.choice(late))
         first, second = rng.choice([("A", "B"), ("B", "A")])
         ops.append(["lose", first])
         for _ in range(rng.randrange(0, 3)):
             r = rng.randrange(3)
             ops.append(apps["A"].write() if r == 0 else ["deliver", "AB"[r - 1]])
         ops.append(["lose", second])
-        some_writes(rng.randrange(0, 3))
+        some_writes(rng.randrange(0, 4), "AAAB")
     return ops
 
 
 def corpus():
     out = []
-    o = lambda x, scid: ["write", x, "open", scid, "a"]
+    o = lambda x, scid, n="a": ["write", x, "open", scid, n]
     d = lambda x, scid, h: ["write", x, "data", scid, h]
     c = lambda x, scid: ["write", x, "close", scid]
+    L = [["listen", x, n] for x in "AB" for n in NAMES]
     # 1. queued while down, then delivered
-    out.append([o("A", 1), d("A", 1, "01"), c("A", 1)])
+    out.append(("rec", L + [o("A", 1), d("A", 1, "01"), c("A", 1)]))
     # 2. loss after delivery but before the ack comes back: replay, duplicates dropped
-    out.append([["use", "A", 0], ["use", "B", 0], o("A", 1), d("A", 1, "01"), ["deliver", "B"], ["deliver", "B"],
-                ["lose", "A"], ["lose", "B"], d("A", 1, "02")])
+    out.append(("rec", L + [["use", "A", 0], ["use", "B", 0], o("A", 1), d("A", 1, "01"), ["deliver", "B"], ["deliver", "B"],
+                            ["lose", "A"], ["lose", "B"], d("A", 1, "02")]))
     # 3. ack delivered, then loss of the second record in flight
-    out.append([["use", "A", 0], ["use", "B", 0], o("A", 1), d("A", 1, "01"), ["deliver", "B"], ["deliver", "A"],
-                ["lose", "B"], ["lose", "A"], ["use", "B", 0], d("A", 1, "02")])
+    out.append(("rec", L + [["use", "A", 0], ["use", "B", 0], o("A", 1), d("A", 1, "01"), ["deliver", "B"], ["deliver", "A"],
+                            ["lose", "B"], ["lose", "A"], ["use", "B", 0], d("A", 1, "02")]))
     # 4. pause inside the replay loop, a write lands behind the unsent tail, loss before resume
-    out.append([o("A", 1), d("A", 1, "01"), d("A", 1, "02"), ["use", "A", 1], d("A", 1, "03"), ["deliver", "B"],
-                ["lose", "A"], d("A", 1, "04"), ["use", "A", 2], ["resume", "A", 1], ["resume", "A", 0]])
+    out.append(("rec", L + [o("A", 1), d("A", 1, "01"), d("A", 1, "02"), ["use", "A", 1], d("A", 1, "03"), ["deliver", "B"],
+                            ["lose", "A"], d("A", 1, "04"), ["use", "A", 2], ["resume", "A", 1], ["resume", "A", 0]]))
     # 5. follower gets the replay before its own connection_made: acks are not sent
-    out.append([o("A", 1), d("A", 1, "aa"), ["use", "A", 0], ["deliver", "B"], ["deliver", "B"], ["use", "B", 0],
-                d("A", 1, "bb"), ["deliver", "B"], ["deliver", "A"]])
+    out.append(("rec", L + [o("A", 1), d("A", 1, "aa"), ["use", "A", 0], ["deliver", "B"], ["deliver", "B"], ["use", "B", 0],
+                            d("A", 1, "bb"), ["deliver", "B"], ["deliver", "A"]]))
     # 6. both directions, acks and data interleaved on the same connection, ack pauses the transport
-    out.append([["use", "A", 0], ["use", "B", 1], o("A", 1), o("B", 2), ["deliver", "B"], d("B", 2, "10"),
-                ["deliver", "A"], ["deliver", "A"], ["resume", "B", 0], ["deliver", "A"], ["deliver", "B"]])
+    out.append(("rec", L + [["use", "A", 0], ["use", "B", 1], o("A", 1), o("B", 2), ["deliver", "B"], d("B", 2, "10"),
+                            ["deliver", "A"], ["deliver", "A"], ["resume", "B", 0], ["deliver", "A"], ["deliver", "B"]]))
     # 7. three generations without any ack ever arriving
-    out.append([o("A", 1), ["use", "A", 0], ["deliver", "B"], ["lose", "A"], d("A", 1, "01"), ["use", "A", 0],
-                ["deliver", "B"], ["deliver", "B"], ["lose", "A"], c("A", 1), ["use", "A", 0], ["deliver", "B"]])
+    out.append(("rec", L + [o("A", 1), ["use", "A", 0], ["deliver", "B"], ["lose", "A"], d("A", 1, "01"), ["use", "A", 0],
+                            ["deliver", "B"], ["deliver", "B"], ["lose", "A"], c("A", 1), ["use", "A", 0], ["deliver", "B"]]))
     # 8. pause/resume with nothing to replay; double pause; double resume
-    out.append([["use", "A", 0], ["pause", "A"], ["pause", "A"], o("A", 1), ["resume", "A", 0], ["resume", "A", 0],
-                d("A", 1, "")])
-    # 10. an ack retires records that are still waiting in _queued_unsent (second loop of handle_ack): the acks of
-    #     the previous generation are read while the replay of the next one is paused
-    out.append([o("A", 1), d("A", 1, "01"), d("A", 1, "02"), ["use", "A", 0], ["use", "B", 0], ["deliver", "B"],
-                ["deliver", "B"], ["deliver", "B"], ["lose", "A"], ["use", "A", 1], ["deliver", "A"], ["deliver", "A"],
-                ["resume", "A", 0]])
-    # 11. write boundaries: an empty write and one larger than a Noise payload stay single records
+    out.append(("rec", L + [["use", "A", 0], ["pause", "A"], ["pause", "A"], o("A", 1), ["resume", "A", 0], ["resume", "A", 0],
+                            d("A", 1, "")]))
+    # 10. an ack retires records that are still waiting in _queued_unsent (second loop of handle_ack)
+    out.append(("rec", L + [o("A", 1), d("A", 1, "01"), d("A", 1, "02"), ["use", "A", 0], ["use", "B", 0], ["deliver", "B"],
+                            ["deliver", "B"], ["deliver", "B"], ["lose", "A"], ["use", "A", 1], ["deliver", "A"], ["deliver", "A"],
+                            ["resume", "A", 0]]))
+    # 11. write boundaries: an empty write and one larger than a Noise payload stay single records (both worlds)
     big = bytes((i * 31 + 7) % 256 for i in range(65520)).hex()
-    out.append([o("A", 1), d("A", 1, ""), d("A", 1, big), ["use", "A", 2], ["deliver", "B"], ["lose", "A"],
-                d("A", 1, "ff")])
+    for w in ("rec", "l2"):
+        out.append((w, [["listen", "B", "a"], o("A", 1), d("A", 1, ""), d("A", 1, big), ["use", "A", 2], ["deliver", "B"],
+                        ["use", "B", 0], ["resume", "A", 0], ["deliver", "B"], ["lose", "A"], d("A", 1, "ff")]))
+    # 12. (l2) writes while down: the whole replay is coalesced with the leader's KCM and parked on the follower's
+    #     new connection until its Connector's turn; first connection and after a reconnect
+    out.append(("l2", L + [o("A", 1), d("A", 1, "01"), d("A", 1, "02"), d("A", 1, "03"), ["use", "A", 0],
+                           ["deliver", "B"], ["deliver", "B"], ["deliver", "B"], ["deliver", "B"], ["use", "B", 0], c("A", 1)]))
+    out.append(("l2", L + [["use", "A", 0], ["use", "B", 0], o("A", 1), ["deliver", "B"], ["deliver", "A"], ["lose", "A"],
+                           ["lose", "B"], d("A", 1, "01"), d("A", 1, "02"), o("A", 3), d("A", 3, "03"), ["use", "A", 0],
+                           ["deliver", "B"], ["deliver", "B"], ["deliver", "B"], ["use", "B", 0], ["deliver", "B"]]))
+    # 13. (l2) un-acked records re-sent after a reconnect are parked together with new ones
+    out.append(("l2", L + [["use", "A", 0], ["use", "B", 0], o("A", 1), d("A", 1, "01"), ["deliver", "B"], ["deliver", "B"],
+                           ["lose", "B"], ["lose", "A"], d("A", 1, "02"), ["use", "A", 0], ["deliver", "B"], ["deliver", "B"],
+                           ["deliver", "B"], ["use", "B", 0]]))
+    # 14. late listener: the peer opens two subchannels of one name (and one of another) and writes on them before
+    #     the application listens; each protocol must get its own data, in order (both worlds)
+    for w in ("rec", "l2"):
+        out.append((w, [["use", "A", 0], ["use", "B", 0], o("A", 1), o("A", 3), o("A", 5, "é"), d("A", 1, "a1"), d("A", 3, "b1"),
+                        d("A", 5, "c1"), d("A", 1, "a2"), d("A", 3, "b2"), c("A", 3)] + [["deliver", "B"]] * 9 +
+                    [["listen", "B", "a"], d("A", 1, "a3"), ["deliver", "B"], ["listen", "B", "é"]]))
+        # … the same across a reconnect, follower to leader
+        out.append((w, [["use", "A", 0], ["use", "B", 0], o("B", 2), o("B", 4), d("B", 2, "01"), d("B", 4, "02"),
+                        ["deliver", "A"], ["deliver", "A"], ["deliver", "A"], ["lose", "A"], ["lose", "B"], d("B", 4, "03"),
+                        d("B", 2, "04"), ["use", "A", 0], ["use", "B", 0], ["deliver", "A"], ["deliver", "A"], ["deliver", "A"],
+                        ["deliver", "A"], ["deliver", "A"], ["listen", "A", "a"]]))
+    # 15. (l2) one write at every chunking boundary of the record layer (encoded = payload + 9): it must cross the
+    #     connection as ONE record, parked or not, and what follows it must arrive too
+    for size in (65510, 65511, 65526, 65527, 2 * 65519 - 9, 2 * 65519 - 8):
+        out.append(("l2", [["listen", "B", "a"], o("A", 1), ["write", "A", "data", 1, size], ["use", "A", 0],
+                           ["deliver", "B"], ["deliver", "B"], ["use", "B", 0], d("A", 1, "01"), ["deliver", "B"]]))
+        out.append(("l2", [["listen", "A", "a"], ["use", "A", 0], ["use", "B", 0], o("B", 2), ["write", "B", "data", 2, size],
+                           ["deliver", "A"], ["deliver", "A"], d("B", 2, "02")]))
+    # 16. the real connect() with protocols that write / close from inside connectionMade, both directions, before
+    #     and after a reconnect; name g: the LISTENING protocol (on A) greets from inside its connectionMade too
+    for w in ("rec", "l2"):
+        out.append((w, [["listen", "B", "a"], ["use", "A", 0], ["use", "B", 0], ["connect", "A", "a", ["6869"], False],
+                        ["connect", "A", "a", ["01", "02"], True], ["connect", "A", "é", [], True], ["deliver", "B"],
+                        ["deliver", "B"], ["lose", "A"], ["lose", "B"], ["connect", "A", "a", ["03"], True]]))
+        out.append((w, [["use", "A", 0], ["use", "B", 0], ["connect", "B", "g", ["aa"], False], ["deliver", "A"],
+                        ["deliver", "A"], ["deliver", "B"], ["connect", "B", "g", [], True], ["deliver", "A"], ["lose", "B"],
+                        ["lose", "A"], ["connect", "B", "a", ["bb"], True], ["use", "A", 0], ["use", "B", 0]]))
     # 9. adversarial: stop_using_connection without a connection
-    out.append([o("A", 1), ["lose", "A", "force"]])
-    return [dict(kind="sched", ops=ops) for ops in out]
+    out.append(("rec", [o("A", 1), ["lose", "A", "force"]]))
+    return [dict(kind="sched", world=w, ops=ops) for w, ops in out]
 
 
 def exhaustive(rng):
@@ -531,12 +1118,38 @@ def exhaustive(rng):
                     for na in range(0, nd + 1):          # acks delivered in generation 1
                         for b2 in (0, 1, 3):
                             for order in (("A", "B"), ("B", "A")):
-                                ops = recs[:pre] + [["use", "A", b1], ["use", "B", 0]] + recs[pre:pre + mid]
+                                ops = [["listen", "B", "a"]]
+                                ops += recs[:pre] + [["use", "A", b1], ["use", "B", 0]] + recs[pre:pre + mid]
                                 ops += [["resume", "A", 0]] if b1 else []
                                 ops += [["deliver", "B"]] * nd + [["deliver", "A"]] * na
                                 ops += [["lose", order[0]], ["lose", order[1]]] + recs[pre + mid:]
                                 ops += [["use", "A", b2]]
-                                out.append(dict(kind="sched", ops=ops))
+                                out.append(dict(kind="sched", world="rec", ops=ops))
+    rng.shuffle(out)
+    return out
+
+
+def exhaustive_parked(rng):
+    """world l2, two generations: n1 records written before the first connection, k1 of them parked behind the
+    KCM on the follower; after the loss (d data / a acks delivered) n2 more records, k2 parked in generation 2;
+    listener early or late; two subchannels."""
+    out = []
+    recs = [["write", "A", "open", 1, "a"], ["write", "A", "open", 3, "a"], ["write", "A", "data", 1, "01"],
+            ["write", "A", "data", 3, "02"], ["write", "A", "data", 1, "03"], ["write", "A", "close", 3]]
+    for n1 in range(0, 5):
+        for k1 in range(0, n1 + 1):
+            for nd in range(0, n1 - k1 + 1):
+                for na in range(0, k1 * 0 + nd + 1):
+                    for n2 in range(0, len(recs) - n1 + 1):
+                        for k2 in sorted({0, 1, 2, n1 + n2}):
+                            for late in (False, True):
+                                ops = [] if late else [["listen", "B", "a"]]
+                                ops += recs[:n1] + [["use", "A", 0]] + [["deliver", "B"]] * k1 + [["use", "B", 0]]
+                                ops += [["deliver", "B"]] * nd + [["deliver", "A"]] * na
+                                ops += [["lose", "A"], ["lose", "B"]] + recs[n1:n1 + n2]
+                                ops += [["use", "A", 0]] + [["deliver", "B"]] * k2 + [["use", "B", 0]]
+                                ops += recs[n1 + n2:]
+                                out.append(dict(kind="sched", world="l2", ops=ops))
     rng.shuffle(out)
     return out
 
@@ -544,15 +1157,25 @@ def exhaustive(rng):
 def cases(rng, tier):
     out = corpus()
     if tier == "quick":
-        n_real, n_free = 300, 300
+        n_real, n_free, n_l2 = 200, 200, 250
     else:
-        n_real, n_free = 9000, 9000
+        n_real, n_free, n_l2 = 6000, 6000, 6000
     for _ in range(n_real):
-        out.append(dict(kind="sched", ops=gen_realistic(rng, rng.choice([1, 2, 2, 3]))))
+        out.append(dict(kind="sched", world="rec", ops=gen_realistic(rng, rng.choice([1, 2, 2, 3]))))
     for _ in range(n_free):
-        out.append(dict(kind="sched", ops=gen_free(rng, rng.choice([10, 25, 40]))))
+        out.append(dict(kind="sched", world="rec", ops=gen_free(rng, rng.choice([10, 25, 40]))))
+    for _ in range(n_l2):
+        out.append(dict(kind="sched", world="l2", ops=gen_realistic(rng, rng.choice([1, 2, 2, 3]), big=0.01)))
+    if tier == "thorough":
+        o = lambda x, scid, n="a": ["write", x, "open", scid, n]
+        for size in sorted(set(list(range(65505, 65545, 3)) + BOUNDARY)):
+            for k in (0, 1, 2):
+                out.append(dict(kind="sched", world="l2", ops=[["listen", "B", "a"], o("A", 1), ["write", "A", "data", 1, size],
+                                                               ["use", "A", 0]] + [["deliver", "B"]] * k + [["use", "B", 0]]))
     ex = exhaustive(rng)
-    out += ex if tier == "thorough" else ex[:300]
+    out += ex if tier == "thorough" else ex[:200]
+    exp = exhaustive_parked(rng)
+    out += exp if tier == "thorough" else exp[:150]
     return out
 
 
@@ -563,12 +1186,13 @@ def search(rng, seconds, seeds):
         yield c, run_case(c)
     for c in corpus():
         yield c, run_case(c)
-    for c in exhaustive(rng):
+    for c in exhaustive_parked(rng)[:1500] + exhaustive(rng):
         yield c, run_case(c)
         if time.time() - t0 > seconds:
             return
     while time.time() - t0 < seconds:
-        c = dict(kind="sched", ops=gen_realistic(rng, 3) if rng.random() < 0.5 else gen_free(rng, 40))
+        w = rng.choice(["rec", "l2"])
+        c = dict(kind="sched", world=w, ops=gen_realistic(rng, 3) if (w == "l2" or rng.random() < 0.5) else gen_free(rng, 40))
         yield c, run_case(c)
 
 
